@@ -330,6 +330,24 @@ RICH = {
              "r[3] instanceof Function,r[4] instanceof Object,r[5] instanceof Array,r[7] instanceof Function,"
              "Object.getPrototypeOf(r[8])===Object.getPrototypeOf(async function(){}),Object.getPrototypeOf(r[9])===Object.getPrototypeOf(function*(){}),r instanceof Array)",
              ["s:ident S S S S S S S S S S"]),
+    # 10.3.1 / 10.2.1: the realm of the calling frame is the caller's again after a foreign callee threw (native function,
+    # bytecode function, native constructor) and the exception was caught in the same frame: literals, VM-created errors
+    # and global lookups of the rest of that frame belong to the evaluating realm; only the caught error is foreign
+    "xthrow": ("JSON.parse",
+               "var f=__inbox();var A=Array,O=Object,F=Function,G=globalThis,E=SyntaxError;var r=(function(){var se;try{f('{')}catch(e){se=e instanceof E}"
+               "return [se,[] instanceof A,({}) instanceof O,(function(){}) instanceof F,globalThis===G,Array===A,(function(){try{null.x}catch(t){return t instanceof TypeError}})()]})();"
+               "print('ident',r[0],r[1],r[2],r[3],r[4],r[5],r[6])",
+               ["s:ident S b:true b:true b:true b:true b:true b:true"]),
+    "ufthrow": ("(function(){throw new RangeError('r')})",
+                "var f=__inbox();var A=Array,O=Object,F=Function,G=globalThis,E=RangeError;var r=(function(){var se;try{f()}catch(e){se=e instanceof E}"
+                "return [se,[] instanceof A,({}) instanceof O,(function(){}) instanceof F,globalThis===G,Array===A,/x/ instanceof RegExp]})();"
+                "print('ident',r[0],r[1],r[2],r[3],r[4],r[5],r[6])",
+                ["s:ident S b:true b:true b:true b:true b:true b:true"]),
+    "xctor": ("Array",
+              "var f=__inbox();var A=Array,O=Object,F=Function,G=globalThis,E=RangeError;var r=(function(){var se;try{new f(-1)}catch(e){se=e instanceof E}"
+              "var ok=new f(2);return [se,[] instanceof A,({}) instanceof O,(function(){}) instanceof F,globalThis===G,Array===A,ok instanceof A]})();"
+              "print('ident',r[0],r[1],r[2],r[3],r[4],r[5],r[6])",
+              ["s:ident S b:true b:true b:true b:true b:true S"]),
 }
 for _k, (_m, _p, _l) in RICH.items():
     IDENT[_k] = "(function(){" + _p + "})()"
